@@ -553,6 +553,7 @@ def run_filter(case):
     coq = cpair(zb(D), cpair(cz(KINDS[container]), cz(kout if code == 0 else KINDS[container])), crows(rows),
                 zblist(f * D for f in dfr), cpspec(spec["kind"], pfr, labs, D),
                 cpair(cz(code), crows(got)))
+    coq = f"({coq} : filter_case)"                  # the cast fixes the type of every [] inside
     tags = (f"pop_{container}", f"p_{spec['kind']}", f"mal_{spec['mal']}", f"world_{case['world']['kind']}",
             "n0" if n == 0 else "n1" if n == 1 else "n2+", "hit_draw_eq_p" if hits else "no_exact_hit",
             "repeated_labels" if len(set(labels)) < n else "distinct_labels",
@@ -719,6 +720,7 @@ def run_rate(case):
                     cpair(cz(KINDS[container]), cz(kout if code == 0 else KINDS[container])), crows(rows),
                     zblist(f * D for f in dfr), cpspec(spec["kind"], rx, labs, Dr),
                     cpair(cz(code), crows(got)))
+        coq = f"({coq} : rate_case)"
     tags = (f"pop_{container}", f"r_{spec['kind']}", f"mal_{spec['mal']}", f"world_{case['world']['kind']}",
             "n0" if n == 0 else "n1" if n == 1 else "n2+", "hit_draw_eq_p" if hits else "no_exact_hit",
             "rate_gt_250" if any(float(v) > 250 for v in vals) else "rate_le_250",
@@ -825,6 +827,9 @@ def gen_weights(rng, n, k):
         cont = rng.choice(["list2d", "list2d", "array2d", "frame"])
     mal = None
     m = rng.random()
+    if shape == "2d" and n >= 2 and rng.random() < 0.2:
+        # ONE weight row given as a 2-d matrix: numpy broadcasts it to every simulant (model: [broadcast])
+        return {"shape": "2d", "container": cont, "rows": [gen_row(rng, k, rng.randrange(n))], "mal": None, "onerow": True}
     if m < 0.04:
         mal = "two_res"
         tgt = rng.choice(rows)
@@ -1012,6 +1017,8 @@ def model_choice(n, k, p, rows_fr, dfr):
         resolved = [None if "nan" in fr else list(fr) for fr in rows0]
     if any(r is not None and sum(r, Fraction(0)) == 0 for r in resolved):
         return "raise", None, None
+    if len(resolved) == 1 and n > 1:
+        resolved = resolved * n                 # a single 2-d row is broadcast
     if len(resolved) != n:
         return "raise", None, None
     ks = [0 if r is None else choose_signed(d, r) for d, r in zip(dfr, resolved)]
@@ -1105,7 +1112,7 @@ def decide_case(case, labels, dfl, dfr, call, recall):
         all_rows = per[:1]
     else:
         all_rows = [exact_resolution(f) for f in rows_fr]
-        per = [all_rows[0]] * n if p["shape"] == "1d" else (all_rows if len(all_rows) == n else None)
+        per = [all_rows[0]] * n if (p["shape"] == "1d" or len(all_rows) == 1) else (all_rows if len(all_rows) == n else None)
     any_res = p is not None and any(f is None for fr in rows_fr for f in fr)
     every_res = p is not None and all(any(f is None for f in fr) for fr in rows_fr)
     malformed = (p is not None and n > 0 and
@@ -1154,7 +1161,7 @@ def decide_case(case, labels, dfl, dfr, call, recall):
                     if p is None:
                         one = recall([i], cobj, None)
                     else:
-                        vi = rows_vals[0] if p["shape"] == "1d" else rows_vals[i]
+                        vi = rows_vals[0] if (p["shape"] == "1d" or len(rows_vals) == 1) else rows_vals[i]
                         one = recall([i], cobj, build_weights({"shape": "1d", "container": "list"}, [vi]))
                     if one.tolist() != [cvals[got[i]]]:
                         fail(f"simulant {labels[i]} alone with its own weight row gets {one.tolist()}, inside the request "
@@ -1179,8 +1186,10 @@ def decide_case(case, labels, dfl, dfr, call, recall):
         D = lcm_den(dfr + [Fraction(1, TWO53)])
         coq = cpair(zb(D), zb(U), zblist(f * D for f in dfr), cnat(k), cwspec(p, rows_fr, U),
                     cpair(cz(code), clist(cz(g) for g in got) if code == 0 else "[]"))
+        coq = f"({coq} : choice_case)"
     tags = (f"choices_{case['choices']['kind']}_{case['choices']['type']}", f"k{k}",
             "p_none" if p is None else f"p_{p['shape']}_{p['container']}", f"mal_{p['mal'] if p else None}",
+            "one_row_2d" if (p and p.get("onerow")) else "rows_as_given",
             "n0" if n == 0 else "n1" if n == 1 else "n2+", "hit_bound_eq_draw" if hits else "no_exact_hit",
             "residual" if any_res else "no_residual", "zero_weight" if zero_w else "no_zero_weight",
             "float_exact" if exact else "float_inexact") + (("near_skipped",) if near else ())
@@ -1216,6 +1225,7 @@ def decide_odd(case, labels, dfl, dfr, k, p, rows_fr, code, got, err, ok, msg):
         D = lcm_den(dfr + [Fraction(1, TWO53)])
         coq = cpair(zb(D), zb(U), zblist(f * D for f in dfr), cnat(k), cwspec(p, rows_fr, U),
                     cpair(cz(code), clist(cz(g) for g in got) if code == 0 else "[]"))
+        coq = f"({coq} : choice_case)"
     flat = [f for fr in rows_fr for f in fr]
     tags = (f"choices_{case['choices']['kind']}_{case['choices']['type']}", f"k{k}", f"p_{p['shape']}_{p['container']}",
             "n0" if n == 0 else "n1" if n == 1 else "n2+", "odd_weights",
@@ -1320,6 +1330,41 @@ def run_rawchoice(case):
     return res
 
 
+def shrink_rows(case):
+    """Smaller variants of a C05 case: drop one simulant (with its per-row probability / rate / weight row / draw), then
+    simplify the container and the additional key."""
+    import copy
+    n = len(case.get("labels", []))
+    for j in range(n):
+        c = copy.deepcopy(case)
+        del c["labels"][j]
+        if "draws" in c:
+            del c["draws"][j]
+        if "bump" in c:
+            del c["bump"][j]
+        for key in ("p", "r"):
+            spec = c.get(key)
+            if isinstance(spec, dict) and "vals" in spec and spec["kind"] in ("list", "tuple", "array", "series") \
+                    and len(spec["vals"]) == n:
+                del spec["vals"][j]
+            if isinstance(spec, dict) and spec.get("shape") == "2d" and len(spec["rows"]) == n:
+                del spec["rows"][j]
+        yield c
+    if case.get("addl") is not None:
+        c = copy.deepcopy(case)
+        c["addl"] = None
+        yield c
+    if case.get("container") in ("series", "frame"):
+        c = copy.deepcopy(case)
+        c["container"] = "index"
+        yield c
+    if isinstance(case.get("world"), dict) and case["world"].get("kind") != "direct":
+        c = copy.deepcopy(case)
+        c["world"] = {"kind": "direct", "key": "x", "seed": 0, "size": 2000 if max(case["labels"] + [0]) >= 300 else 300,
+                      "clock": ["int", 0]}
+        yield c
+
+
 def finding_choice(case, res):
     """F-G: draw exactly 0.0 and weight of option 0 equal to 0 -> option 0 is returned (the class is set by the oracle
     only when exactly that happened)."""
@@ -1332,13 +1377,15 @@ def streams(tier):
     imp = "From Viv Require Import Common Decide."
     return [
         Stream(name="filter", imports=imp, check="check_filter", gen=gen_filter, run=run_filter,
-               n_quick=320, n_thorough=6000, doc="filter_for_probability: containers x argument shapes x boundary values"),
+               n_quick=320, n_thorough=6000, shrink=shrink_rows,
+               doc="filter_for_probability: containers x argument shapes x boundary values"),
         Stream(name="rate", imports=imp, check="check_rate", gen=gen_rate, run=run_rate,
-               n_quick=160, n_thorough=3000, doc="filter_for_rate: clipping, 1 - exp (numpy.exp as oracle table), shapes"),
+               n_quick=160, n_thorough=3000, shrink=shrink_rows,
+               doc="filter_for_rate: clipping, 1 - exp (numpy.exp as oracle table), shapes"),
         Stream(name="choice", imports=imp, check="check_choice", gen=gen_choice, run=run_choice,
-               n_quick=320, n_thorough=6000, finding_of=finding_choice,
+               n_quick=320, n_thorough=6000, finding_of=finding_choice, shrink=shrink_rows,
                doc="choice on real streams: weights built from the draws read first"),
         Stream(name="rawchoice", imports=imp, check="check_choice", gen=gen_rawchoice, run=run_rawchoice,
-               n_quick=200, n_thorough=4000, corpus=lambda: list(RAW_CORPUS), finding_of=finding_choice,
+               n_quick=200, n_thorough=4000, corpus=lambda: list(RAW_CORPUS), finding_of=finding_choice, shrink=shrink_rows,
                doc="_choice with harness-chosen draws incl. 0.0 (finding F-G) and 1 - 2**-53"),
     ]
